@@ -391,6 +391,7 @@ func runC20(tier string, r *Result) {
 		if !r.mine(i) || r.expired() {
 			continue
 		}
+		r.note(c)
 		msg, key, outcome := runC20Config(c)
 		r.Executions++
 		r.Nodes++
